@@ -133,6 +133,21 @@ class Check(PropertyCheck):
                 if b_allkw != b_kw:
                     b_kw = b_allkw if b_allkw != b_pos else b_kw
                 parts = b"".join(ty(x).serialize() for ty, x in zip(tx.values(), txv))
+                # the same values carried by EZSP integer types of ANOTHER width (a caller passing t.uint8_t(5) where the
+                # version declares a 16-bit field): the declared type decides what goes on the wire
+                import enum
+
+                def retype(ty, x):
+                    if et.kind(ty) != "int" or issubclass(ty, enum.Enum) or not isinstance(x, int) or isinstance(x, bool) or int(x) < 0:
+                        return x
+                    for alt in (t.uint8_t, t.uint16_t, t.uint32_t, t.uint64_t):
+                        if alt._size != getattr(ty, "_size", None) and int(x) < (1 << (8 * alt._size)):
+                            return alt(int(x))
+                    return x
+                b_alt = public_call([retype(ty, x) for ty, x in zip(tx.values(), txv)], {})
+                if b_alt != b_pos:
+                    b_kw = b_alt            # reported through the "forms differ" clause below
+                    out["alt_differs"] = True
             else:
                 b_pos = b_kw = public_call([], txv.as_dict())
                 parts = txv.serialize()
@@ -205,6 +220,9 @@ class Check(PropertyCheck):
             return f"v{v}.{name}: request header {obs['tx'][:10]} is not {hdr.hex()}"
         if not obs["tx_parts_ok"]:
             return f"v{v}.{name}: arguments are not serialised in declared order"
+        if obs.get("alt_differs"):
+            return (f"v{v}.{name}: the same argument values carried by EZSP integer types of another width are serialised with "
+                    f"that width instead of the declared one")
         if not obs["tx_kw_same"]:
             return f"v{v}.{name}: positional and keyword forms differ"
         if not obs["rx_equal"]:
